@@ -22,7 +22,7 @@ PROFILES = {
     "C13": dict(axes=False, max_events=50, want_actions=["panic"], nactions=[1, 2, 3, 5], action_p=0.4),
     "C14": dict(axes=False, max_events=50, nexit=[0, 1, 2, 2, 3, 3], action_p=0.3),
 }
-SIZES = {"quick": 3000, "thorough": 60000}
+SIZES = {"quick": 8000, "thorough": 400000}
 
 
 def load_corpus(prop):
